@@ -338,7 +338,7 @@ hand("SignedOutMultiplier", 1, "qp.SignedOutMultiplier({W0:2}, {W2:4}, {W4:8}, {
 hand("SemiAdder", 3, "qp.SemiAdder({W0:2}, {W2:4}, {W4:5})", "qp.SemiAdder({W0:3}, {W3:5}, {W5:6})", "qp.SemiAdder({W0:1}, {W1:2})",
      "qp.SemiAdder({W0:2}, {W2:5}, {W5:7})", "qp.SemiAdder({W0:1}, {W1:4}, {W4:6})", "qp.SemiAdder({W0:3}, {W3:6}, {W6:8})",
      "qp.SemiAdder({W0:2}, {W2:3})")
-hand("Incrementer", 3, "qp.Incrementer({W3}, {W3:5})", "qp.Incrementer({W3})", "qp.Incrementer({W4}, {W4:5})", "qp.Incrementer({W1})",
+hand("Incrementer", 4, "qp.Incrementer({W3}, {W3:5})", "qp.Incrementer({W2}, {W2:7})", "qp.Incrementer({W3})", "qp.Incrementer({W4}, {W4:5})", "qp.Incrementer({W1})",
      "qp.Incrementer({W2})", "qp.Incrementer({W5}, {W5:8})", "qp.Incrementer({W4})")
 hand("IntegerComparator", 4, "qp.IntegerComparator(2, geq=True, wires={W3})", "qp.IntegerComparator(3, geq=False, wires={W4})",
      "qp.IntegerComparator(5, geq=True, wires={W4}, work_wires={W4:6})", "qp.IntegerComparator(1, geq=False, wires={W3}, work_wires={W3:4})",
@@ -448,7 +448,10 @@ hand("C(Prod)", 3, "qp.ctrl(qp.prod(qp.X({w0}), qp.Y({w1})), control=['k0', 'k1'
 hand("C(SemiAdder)", 2, "qp.ctrl(qp.SemiAdder({W0:2}, {W2:4}, {W4:5}), control=['k0'])", "qp.ctrl(qp.SemiAdder({W0:2}, {W2:5}, {W5:7}), control=['k0'], control_values=[0])",
      "qp.ctrl(qp.SemiAdder({W0:1}, {W1:2}), control=['k0', 'k1'])", "qp.ctrl(qp.SemiAdder({W0:3}, {W3:5}, {W5:6}), control=['k0', 'k1'], control_values=[1, 0])")
 hand("C(Incrementer)", 2, "qp.ctrl(qp.Incrementer({W3}, {W3:5}), control=['k0'])", "qp.ctrl(qp.Incrementer({W3}), control=['k0', 'k1'], control_values=[0, 1])",
-     "qp.ctrl(qp.Incrementer({W2}), control=['k0'], control_values=[0])", "qp.ctrl(qp.Incrementer({W4}, {W4:5}), control=['k0', 'k1'])")
+     "qp.ctrl(qp.Incrementer({W2}), control=['k0'], control_values=[0])", "qp.ctrl(qp.Incrementer({W4}, {W4:5}), control=['k0', 'k1'])",
+     # enough zeroed work wires for the elbow-ladder rule with >= 2 controls (n + c <= work + 1), two sizes with the same n + c
+     "qp.ctrl(qp.Incrementer({W3}, ['v0', 'v1', 'v2', 'v3', 'v4']), control=['k0', 'k1'])",
+     "qp.ctrl(qp.Incrementer({W2}, ['v0', 'v1', 'v2', 'v3', 'v4']), control=['k0', 'k1', 'k2'], control_values=[1, 0, 1])")
 hand("Adjoint(ChangeOpBasis)", 2, "qp.adjoint(qp.change_op_basis(qp.Hadamard({w0}), qp.RZ(A[0], {w0}), qp.Hadamard({w0})))",
      "qp.adjoint(qp.change_op_basis(qp.S({w1}), qp.CRY(A[1], {W2})))")
 hand("Adjoint(QROM)", 2, "qp.adjoint(qp.QROM(['01','11','10','00'], control_wires={W2}, target_wires={W2:4}, work_wires={W4:6}, clean=False))",
@@ -769,7 +772,8 @@ def _inner_work_wires(op):
             if w in op.wires and w not in out:
                 out.append(w)
     b = getattr(op, "base", None)
-    if b is not None and b is not op and type(op).__name__.startswith(("Adjoint", "Pow")):
+    if b is not None and b is not op and type(op).__name__.startswith(("Adjoint", "Pow", "Controlled")):
+        # (a controlled template keeps the template's documented domain: its own work wires start in |0>)
         out += [w for w in _inner_work_wires(b) if w not in out]
     return out
 
@@ -1251,6 +1255,11 @@ def domain_and_reference(op, lay, legacy):
     if dom is not None:
         z, keep = dom(op)
         zero_sys |= set(z)
+    base = getattr(op, "base", None)
+    if dom is None and base is not None and DOMAIN.get(type(base).__name__) is not None:
+        # a controlled / adjoint version inherits the documented input domain of its base (work wires in |0>)
+        z, _keep_base = DOMAIN[type(base).__name__](base)
+        zero_sys |= set(w for w in z if w in sys)
     sem = SEMANTIC.get(type(op).__name__)
     if sem is not None:
         r = sem(op)
